@@ -4,5 +4,5 @@ CONSTANTS
   Reqs = {1, 2}
   Outcomes = {"", "AlreadyReserved", "InvokeDoneFailed", "InitDoneFailed", "InvokeTimeout", "ReleaseReservationDone", "NotReserved"}
   Bodies = {"empty", "b1", "err"}
-INVARIANTS AnswerFromOwnOutcome InvokeAfterInit InitAtMostOnce
+INVARIANTS AnswerFromOwnOutcome InvokeAfterInit InitAtMostOnce LogWellFormed
 CHECK_DEADLOCK FALSE
